@@ -501,6 +501,7 @@ func c08(c *Ctx) {
 	// "messages written ... reach the peer": Write returns when the bytes are queued in the kernel, and Close
 	// delivers the queue unless the socket was told to drop it (SO_LINGER 0 also turns the peer's end-of-stream
 	// into a reset)
+	c.tcpWritePassThrough("R08.W")
 	r.Rule("R08.S", "no socket of the repository is configured to discard queued data on Close: SetLinger is called, if at all, with a negative constant (the default)", 1)
 	{
 		nf, nc := 0, 0
